@@ -107,3 +107,28 @@ Example C13_from_source_example :
   und_ok T (bs "user") = true /\ count_lf T = 3%nat /\
   evaluate_string cx0 (und_source T (bs "user")) [] = RenderErr 4 (bs "identifier 'user' not found").
 Proof. repeat split; vm_compute; reflexivity. Qed.
+
+(* the same template in a FILE of a loaded tree: the error carries the line and the path of that file *)
+Theorem C13_undefined_identifier_in_a_file_names_line_and_file fs cfg rel T name :
+  read_file fs rel = ReadOk (und_source T name) -> und_ok T name = true ->
+  exists ss, load_page fs cfg rel = Api.LOk (ss, false) /\
+    forall tpl nm gd en, alookup nm tpl = Some ss -> env_from_map gd = EnvOk en -> env_get en name = None ->
+      template_string cx0 cfg tpl nm gd =
+        StrErr (mkErr (S (count_lf T)) (template_path cfg nm) (fmt ErrIdentifierNotFound [name])).
+Proof. exact (undefined_identifier_in_a_file fs cfg rel T name). Qed.
+Print Assumptions C13_undefined_identifier_in_a_file_names_line_and_file.
+
+Example C13_file_example :
+  let T := bs ("<h1>title</h1>" ++ nl13 ++ nl13)%string in
+  let fs := [(bs "templates/blog/post.tw.html", FFile (und_source T (bs "user")))] in
+  forall tpl, new_template fs default_config = Api.LOk tpl ->
+    template_string cx0 default_config tpl (bs "blog/post") [] =
+      StrErr (mkErr 3 (bs "$ROOT/templates/blog/post.tw.html") (bs "identifier 'user' not found")).
+Proof.
+  intros T fs.
+  assert (Hr : match new_template fs default_config with
+               | Api.LOk tpl => template_string cx0 default_config tpl (bs "blog/post") []
+               | _ => StrPanic end =
+               StrErr (mkErr 3 (bs "$ROOT/templates/blog/post.tw.html") (bs "identifier 'user' not found"))) by (vm_compute; reflexivity).
+  intros tpl Ht. rewrite Ht in Hr. exact Hr.
+Qed.
